@@ -18,9 +18,9 @@ theorem access_table_nonvacuous : Vocab.known Vocab.lockPolicy = true →
     Generated.accesses.any (fun a => a.2.1 = "RetryClient.taskQueue" && a.2.2.1) = true ∧
     Generated.accesses.any (fun a => a.2.1 = "signaller.chPubAck" && a.2.2.1) = true := Lockset.table_nonvacuous
 
-/-- every Transport.Write is inside (*BaseClient).write, which takes muWrite first and releases it by defer -/
-theorem writes_serialised :
-    Generated.transportWriteSites = ["(*BaseClient).write"] ∧ Generated.writeHoldsMuWrite = true := Lockset.writes_serialised
+/-- exactly one function calls Transport.Write (`(*BaseClient).write` today); it takes muWrite first and releases it by defer -/
+theorem writes_serialised : Vocab.known Vocab.lockPolicy = true →
+    Generated.transportWriteSites.length = 1 ∧ Generated.writeHoldsMuWrite = true := Lockset.writes_serialised
 
 /-- a conflicting pair under one mutex is mutually exclusive: the abstract statement behind the table.
     Two accesses conflict if they touch the same field and one writes; `holds` of the same mutex for
